@@ -8,6 +8,7 @@ From SF Require Import Unsized.Proofs.EncodeParse Unsized.Proofs.Mem Unsized.Pro
   Unsized.Proofs.Observe Unsized.Proofs.Table Unsized.Proofs.Path Unsized.Proofs.Context Unsized.Proofs.Context2 Unsized.Proofs.Focus
   Unsized.Proofs.Pos Unsized.Proofs.FocusOps Unsized.Proofs.NotifyInside Unsized.Proofs.Resize Unsized.Proofs.GenOps.
 From SF Require Import Unsized.Run Unsized.Proofs.History.
+From SF Require Import Unsized.Proofs.EnumFacts.
 
 Arguments Z.add : simpl never.
 Arguments Z.sub : simpl never.
@@ -18,14 +19,46 @@ Arguments Z.modulo : simpl never.
 
 (* ---------------------------------------------------------------------------------------------- *)
 (* the op-code encoding of an operation (the case-file format: harness/src/nodes.rs)               *)
-Fixpoint enc_path (pi : list step) : list Z :=
-  match pi with [] => [] | SF i :: r => 1 :: Z.of_nat i :: enc_path r | SE i :: r => 1 :: Z.of_nat i :: enc_path r end.
-Definition enc_items (items : list (list Z)) : list Z := flat_map (fun it => zlen it :: it) items.
-Definition enc_op (o : gop) : list Z :=
-  match o with
-  | GInsert pi idx new => enc_path pi ++ 10 :: idx :: zlen new :: enc_items new
-  | GRemove pi st en => enc_path pi ++ [11; st; en]
+(* a step into an enum's live variant is `1 :: d` with d the discriminant the caller expects (enum_impl.rs `get()`):
+   the encoding of a path reads the live discriminants off the value the path is taken in *)
+Fixpoint enc_path (t : ty) (v : val) (pi : list step) {struct pi} : list Z :=
+  match pi with
+  | [] => []
+  | SF i :: r =>
+      1 :: Z.of_nat i ::
+      match t, v with
+      | TStruct ts, VStruct vs =>
+          match nth_error ts i, nth_error vs i with Some ti, Some vi => enc_path ti vi r | _, _ => [] end
+      | _, _ => []
+      end
+  | SE i :: r =>
+      1 :: Z.of_nat i ::
+      match t, v with
+      | TUList it _, VUList items => match nth_error items i with Some kv => enc_path it (snd kv) r | None => [] end
+      | _, _ => []
+      end
+  | SV :: r =>
+      match t, v with
+      | TEnum _ vs, VEnum d p => 1 :: d :: match find_variant d vs with Some vt => enc_path vt p r | None => [] end
+      | _, _ => []
+      end
   end.
+Definition enc_items (items : list (list Z)) : list Z := flat_map (fun it => zlen it :: it) items.
+Definition enc_op (t : ty) (v : val) (o : gop) : list Z :=
+  match o with
+  | GInsert pi idx new => enc_path t v pi ++ 10 :: idx :: zlen new :: enc_items new
+  | GRemove pi st en => enc_path t v pi ++ [11; st; en]
+  end.
+
+(* a unit variant's payload (TStruct []) leads nowhere but to itself *)
+Lemma resolve_unit_struct v r X xv : resolve (TStruct []) v r = Some (X, xv) -> X = TStruct [].
+Proof.
+  destruct r as [|[i|i|] r]; cbn [resolve].
+  - now intros [= <- _].
+  - destruct v; try discriminate. destruct i; discriminate.
+  - discriminate.
+  - discriminate.
+Qed.
 
 Lemma ztake_zlen_app {A} (a b : list A) : ztake (zlen a) (a ++ b) = a.
 Proof.
@@ -92,7 +125,7 @@ Definition op_tail (o : gop) : list Z :=
   | GRemove _ st en => [11; st; en]
   end.
 
-Lemma enc_op_split o : enc_op o = enc_path (focus_of o) ++ op_tail o.
+Lemma enc_op_split t v o : enc_op t v o = enc_path t v (focus_of o) ++ op_tail o.
 Proof. destruct o; reflexivity. Qed.
 
 (* at the end of the path (the type there is a List) the dispatcher calls the operation itself *)
@@ -116,14 +149,14 @@ Lemma exec_path ovf t v s (F : ptr -> out res) tail pi c lw xv :
   resolve t v pi = Some (TList c lw, xv) ->
   (forall f top' pc, get_at t top' (mpath pi) = Some (TList c lw, pc) ->
                      exec (S f) ovf t s top' (mpath pi) tail = F top') ->
-  forall r pre top fuel,
-  pre ++ r = pi -> RepF pre t v s top -> (length r < fuel)%nat ->
+  forall r pre top fuel tc vc,
+  pre ++ r = pi -> resolve t v pre = Some (tc, vc) -> RepF pre t v s top -> (length r < fuel)%nat ->
   exists top1, menter ovf t s top (mpath pre) r = Ok top1 /\
-    (exec fuel ovf t s top (mpath pre) (enc_path r ++ tail) = F top1 \/
+    (exec fuel ovf t s top (mpath pre) (enc_path tc vc r ++ tail) = F top1 \/
      exists code topk, F top1 = Err code /\ code <> -9 /\
-                       exec fuel ovf t s top (mpath pre) (enc_path r ++ tail) = Ok (s, topk, [-1; code])).
+                       exec fuel ovf t s top (mpath pre) (enc_path tc vc r ++ tail) = Ok (s, topk, [-1; code])).
 Proof.
-  intros Hres Hfin. induction r as [|st r IH]; intros pre top fuel Hpi R Hfuel.
+  intros Hres Hfin. induction r as [|st r IH]; intros pre top fuel tc vc Hpi Hpre0 R Hfuel.
   - rewrite app_nil_r in Hpi. subst pre. exists top. split; [reflexivity|]. left.
     destruct fuel as [|f]; [cbn [length] in Hfuel; lia|].
     pose proof R as [Hpl Hok Hwf _ _ HL _].
@@ -131,15 +164,18 @@ Proof.
     cbn [enc_path app]. exact (Hfin f top node Hg).
   - destruct fuel as [|f]; [lia|]. cbn [length] in Hfuel.
     rewrite <- Hpi in Hres.
-    destruct (resolve_app pre (st :: r) t v _ _ Hres) as (tc & vc & Hpre & Hrest).
+    destruct (resolve_app pre (st :: r) t v _ _ Hres) as (tc' & vc' & Hpre & Hrest).
+    rewrite Hpre0 in Hpre. injection Hpre as <- <-. pose proof Hpre0 as Hpre.
     pose proof R as [Hpl Hok Hwf [junk Hmem] Hlen HL Hc32].
     assert (Hpi' : (pre ++ [st]) ++ r = pi) by (rewrite <- app_assoc; exact Hpi).
     destruct (LayP_get_at Lay pre t v 0 top _ _ Hwf Hpre HL) as (node & Hg & HE).
-    destruct st as [i|i]; cbn [menter resolve enc_path app] in *.
+    destruct st as [i|i|]; cbn [menter resolve enc_path app] in *.
     + destruct tc as [| | | |ts|]; try discriminate. destruct vc as [| | |vs|]; try discriminate.
       destruct (nth_error ts i) as [ti|] eqn:Et; [|discriminate]. destruct (nth_error vs i) as [vi|] eqn:Ev; [|discriminate].
       pose proof (LayP_extend_SF pre t v 0 top ts vs i ti vi Hwf Hpre Et Ev HL) as HL'.
-      destruct (IH (pre ++ [SF i]) top f Hpi' (repf_refocus _ _ _ _ _ _ _ R HL') ltac:(lia)) as (top1 & Hm & Hex).
+      assert (Hpre' : resolve t v (pre ++ [SF i]) = Some (ti, vi)).
+      { rewrite (resolve_app_eq _ [SF i] _ _ _ _ Hpre). cbn [resolve]. now rewrite Et, Ev. }
+      destruct (IH (pre ++ [SF i]) top f ti vi Hpi' Hpre' (repf_refocus _ _ _ _ _ _ _ R HL') ltac:(lia)) as (top1 & Hm & Hex).
       rewrite mpath_app in Hm, Hex. cbn [mpath map mstep_of] in Hm, Hex.
       exists top1. split; [exact Hm|].
       rewrite exec_descend. unfold sub. rewrite Hg. cbn [obind]. rewrite Nat2Z.id. exact Hex.
@@ -151,7 +187,9 @@ Proof.
       rewrite (ulist_range_elem pre t v top it k items i kv junk Hpl Hwf Hpre En HL a n inner pmb rs re Hg). cbn [obind].
       destruct (ulist_enter_LayP ovf pre t true v s top it k items i kv junk Hpl Hok Hwf Hpre En HL Hmem) as (top1 & He & HL1).
       rewrite He. cbn [obind].
-      destruct (IH (pre ++ [SE i]) top1 f Hpi' (repf_refocus _ _ _ _ _ _ _ R HL1) ltac:(lia)) as (top' & Hm & Hex).
+      assert (Hpre' : resolve t v (pre ++ [SE i]) = Some (it, snd kv)).
+      { rewrite (resolve_app_eq _ [SE i] _ _ _ _ Hpre). cbn [resolve]. now rewrite En. }
+      destruct (IH (pre ++ [SE i]) top1 f it (snd kv) Hpi' Hpre' (repf_refocus _ _ _ _ _ _ _ R HL1) ltac:(lia)) as (top' & Hm & Hex).
       rewrite mpath_app in Hm, Hex. cbn [mpath map mstep_of] in Hm, Hex.
       exists top'. split; [exact Hm|].
       destruct Hex as [Hex|(code & topk & HF & Hne & Hex)]; rewrite Hex.
@@ -160,20 +198,34 @@ Proof.
         -- zb. subst code. left. reflexivity.
         -- zb. right. exists code, top1. split; [reflexivity|]. split; [exact E9|reflexivity].
       * right. exists code, topk. split; [exact HF|]. split; [exact Hne|reflexivity].
+    + destruct tc as [| | | | |rw vars]; try discriminate. destruct vc as [| | | |d pv]; try discriminate.
+      destruct (find_variant d vars) as [vt|] eqn:Ef; [|discriminate].
+      destruct node as [| | | | |st0 d' q]; try (cbn in HE; contradiction).
+      apply Lay_enum in HE. destruct HE as (_ & -> & _).
+      pose proof (LayP_extend_SV pre t v 0 top rw vars d pv vt Hwf Hpre Ef HL) as HL'.
+      assert (Hpre' : resolve t v (pre ++ [SV]) = Some (vt, pv)).
+      { rewrite (resolve_app_eq _ [SV] _ _ _ _ Hpre). cbn [resolve]. now rewrite Ef. }
+      destruct (IH (pre ++ [SV]) top f vt pv Hpi' Hpre' (repf_refocus _ _ _ _ _ _ _ R HL') ltac:(lia)) as (top1 & Hm & Hex).
+      rewrite mpath_app in Hm, Hex. cbn [mpath map mstep_of] in Hm, Hex.
+      exists top1. split; [exact Hm|].
+      cbn beta iota. cbn [app].
+      rewrite exec_descend. unfold sub. rewrite Hg. cbn [obind]. rewrite Z.eqb_refl, Ef. cbn [negb].
+      destruct vt as [| | | |[|f0 fs]|]; try exact Hex.
+      apply resolve_unit_struct in Hrest. discriminate Hrest.
 Qed.
 
 (* the dispatcher on an encoded operation, against descent + operation *)
 Lemma exec_tie ovf t v s top o c lw xv fuel :
   RepF [] t v s top -> resolve t v (focus_of o) = Some (TList c lw, xv) -> (length (focus_of o) < fuel)%nat ->
   exists top1, menter ovf t s top [] (focus_of o) = Ok top1 /\
-    (exec fuel ovf t s top [] (enc_op o) = mopG t s top1 o \/
+    (exec fuel ovf t s top [] (enc_op t v o) = mopG t s top1 o \/
      exists code topk, mopG t s top1 o = Err code /\ code <> -9 /\
-                       exec fuel ovf t s top [] (enc_op o) = Ok (s, topk, [-1; code])).
+                       exec fuel ovf t s top [] (enc_op t v o) = Ok (s, topk, [-1; code])).
 Proof.
   intros R Hres Hfuel. rewrite enc_op_split.
   exact (exec_path ovf t v s (fun top' => mopG t s top' o) (op_tail o) (focus_of o) c lw xv Hres
            (fun f top' pc Hg => exec_op_tail f ovf t s top' o c lw pc Hg)
-           (focus_of o) [] top fuel eq_refl R Hfuel).
+           (focus_of o) [] top fuel t v eq_refl eq_refl R Hfuel).
 Qed.
 
 (* ---------------------------------------------------------------------------------------------- *)
@@ -182,7 +234,7 @@ Theorem exec_tie_ok ovf t v s top o r :
   RepF [] t v s top ->
   (exists X xv, resolve t v (focus_of o) = Some (X, xv) /\ (exists c lw, X = TList c lw)) ->
   mstepG ovf t s top o = Ok r ->
-  forall fuel, (length (focus_of o) < fuel)%nat -> exec fuel ovf t s top [] (enc_op o) = Ok r.
+  forall fuel, (length (focus_of o) < fuel)%nat -> exec fuel ovf t s top [] (enc_op t v o) = Ok r.
 Proof.
   intros R (X & xv & Hres & c & lw & ->) Hs fuel Hfuel.
   destruct (exec_tie ovf t v s top o c lw xv fuel R Hres Hfuel) as (top1 & Hm & Hex).
@@ -197,7 +249,7 @@ Theorem exec_tie_err ovf t v s top o top1 c :
   (exists X xv, resolve t v (focus_of o) = Some (X, xv) /\ (exists cc lw, X = TList cc lw)) ->
   menter ovf t s top [] (focus_of o) = Ok top1 -> mopG t s top1 o = Err c -> c <> -9 ->
   forall fuel, (length (focus_of o) < fuel)%nat ->
-  exec fuel ovf t s top [] (enc_op o) = Err c \/ exists topk, exec fuel ovf t s top [] (enc_op o) = Ok (s, topk, [-1; c]).
+  exec fuel ovf t s top [] (enc_op t v o) = Err c \/ exists topk, exec fuel ovf t s top [] (enc_op t v o) = Ok (s, topk, [-1; c]).
 Proof.
   intros R (X & xv & Hres & cc & lw & ->) Hm Hop _ fuel Hfuel.
   destruct (exec_tie ovf t v s top o cc lw xv fuel R Hres Hfuel) as (top1' & Hm' & Hex).
@@ -206,5 +258,26 @@ Proof.
   - left. rewrite Hex. exact Hop.
   - right. exists topk. rewrite Hop in HF. injection HF as <-. exact Hex.
 Qed.
+
+(* sanity, on a concrete state: a list inside the live variant of an enum; the path goes through SV and its encoding
+   carries the live discriminant 3 *)
+Example exec_tie_enum_path :
+  let X := TEnum 1 [(0, TStruct []); (3, TList (FAny 1) 1)] in
+  let t := TStruct [TFixed (FAny 1); X; TList (FAny 1) 1] in
+  let v := VStruct [VBytes [9]; VEnum 3 (VList [[5]; [6]]); VList [[7]]] in
+  let o := GInsert [SF 1; SV] 1 [[4]] in
+  let s := mkMach (encode t v ++ [0; 0; 0; 0]) (zlen (encode t v)) 0 0 in
+  enc_op t v o = [1; 1; 1; 3; 10; 1; 1; 1; 4] /\
+  match get_ptr true t (m_mem s) 0 (m_len s) with
+  | Ok (top, _) =>
+      match mstepG true t s top o with
+      | Ok (s1, top1, e) =>
+          exec 5 true t s top [] (enc_op t v o) = Ok (s1, top1, e) /\
+          ztake (m_len s1) (m_mem s1) = encode t (plug t v [SF 1; SV] (VList [[5]; [4]; [6]]))
+      | _ => False
+      end
+  | _ => False
+  end.
+Proof. vm_compute. repeat split; reflexivity. Qed.
 
 Print Assumptions exec_tie_ok. Print Assumptions exec_tie_err.
